@@ -174,7 +174,11 @@ def part_kdf(chk, drv, runner, quick):
         klen = 32 if V == 5 else rng.choice([5, 16, 16, 7, 13])
         objid = rng.choice([1, 2, 255, 256, 65535, 65536, 0xFFFFFF, 0x1000000, 0x12345678, rng.randrange(1, 1 << 24)])
         gen = rng.choice([0, 0, 1, 255, 256, 65535, rng.randrange(65536)])
-        lines.append("datakey %s %d %d %d %d %d" % (hexs(rbytes(rng, klen)), objid, gen, rng.randrange(2), V, 4)); meta.append(("datakey",))
+        aes = rng.randrange(2)
+        key = rbytes(rng, klen)
+        lines.append("datakey %s %d %d %d %d %d" % (hexs(key), objid, gen, aes, V, 4))
+        # Algorithm 1 of the reader applies where the scheme exists: RC4 with any key length, AES with 16 / 32-byte keys
+        meta.append(("datakey", "isokey %d %d %s %d %d" % (6 if V == 5 else 4, aes, hexs(key), objid, gen) if (not aes or klen >= 16) else None))
     # O / U / key for V < 5 (the three schemes the writer uses, and other key lengths through the API)
     ou_cases = []
     n_ou = 16 if quick else 1500
@@ -208,6 +212,14 @@ def part_kdf(chk, drv, runner, quick):
     impl = common.run_lines(drv, lines, shards=4)
     model = common.run_lines(runner, lines, shards=8)
     tie = [i for i in range(len(lines)) if impl[i] != model[i]]
+    dk = [i for i in range(len(lines)) if meta[i][0] == "datakey" and meta[i][1]]
+    dk_spec = common.run_lines(runner, [meta[i][1] for i in dk], shards=4)
+    for i, sp in zip(dk, dk_spec):
+        if impl[i] != sp:
+            chk.violation({"kind": "property-fails-on-implementation", "part": "kdf", "what": "QPDF::compute_data_key differs from Algorithm 1 / 1.A of the standard",
+                           "case": lines[i], "implementation": impl[i], "specification": sp, "model": model[i]})
+            if i in tie:
+                tie.remove(i)
 
     # second round: password checks on what the implementation produced: implementation's own checker vs
     # the model of it, and the ISO reference reader (specification) on the same dictionary values
